@@ -25,7 +25,7 @@ CLAIMED = {
  "C06": pk("Data semantics (every sizing mode, include/consume, search window, overlapping marker prefixes, regex library incl. context-sensitive patterns, end-of-string) are the ScanMarker/ScanRegex/ReadSized actions of Packet.tla; TLC enumerates U_C06 x all inputs; every behaviour is replayed; values, end offset, pack output of the real classes must equal the specification's (the property determines them uniquely).", "5.6"),
  "C08": pk("Repeated/optional/reference control flow is the frame machine of Packet.tla (count, until seeing the list so far, when, selectors, shared option tables, nesting to depth 3); TLC enumerates U_C08 x all inputs; replay compares lists, None, nested packets, end offsets and re-serialisation; executions differing are judged on the recorded run (history-dependent faults included).", "5.8"),
  "C10": pk("Move/alignment arithmetic is MoveTarget/PadTo of Packet.tla, used by both machines; TLC checks C10_Same (every described field ends at the same relative position on input and output) and C10_Least (least padding < a) on U_C10 (modifier x reference x const/field/callable target, nesting, class align, per-element alignment, backward placement); field events (cursor after every described field, both directions) of the real classes are compared and judged.", "5.10"),
- "C12": pk("Fail/Unwind of Packet.tla predict the fields_stack (innermost entry = failing field, its class, the offset where it began; one entry per enclosing packet frame) for every failing input of U_C12/U_C10_Flat; replay compares phase flag, full stack (generic code), depth (generated code), str() totality, silent=True -> None, non-bytes -> ValueError; over-acceptance of failing inputs is owned too.", "5.12"),
+ "C12": pk("Fail/Unwind of Packet.tla predict the fields_stack (innermost entry = failing field, its class, the offset where it began; one entry per enclosing packet frame) for every failing input of U_C12/U_C10_Flat; replay compares phase flag, the full stack under generic AND generated code (Codegen.tla maps an entry to the struct block that contains the field: name `between 'a' and 'b'`, offset of the block), descriptor hooks failing before pack / after unpack at the root and nested, str() totality, silent=True -> None, non-bytes -> ValueError; over-acceptance of failing inputs is owned too.", "5.12"),
  "C14": pk("MC_Context.tla runs two unpack machines in lockstep on (raw, 0) and (pre+raw+post, len(pre)) for every declaration without absolute positioning x every input x pre/post over the alphabet; TLC checks cursor lockstep, equal values / shifted end and shifted error offsets, with the open-ended-scan exemption decided by the specification; every pair is replayed on real classes and differing pairs are judged by TLC on the recorded pair.", "5.14"),
  "C02": pk("MC_Values.tla chooses a declaration and a complete value assignment (Values.tla: per-kind domains with boundary integers, empty and maximal lists, absent optionals, nested packets), packs it with the pack machine and re-parses the output with the unpack machine; ConsistentPkt is the structural definition of 'values that satisfy the declaration'; TLC checks Inv_C02_Reparse, Inv_C02_Layout (independent concatenation of encodings), Inv_C02_PosReparse for positioned fields. Replay builds the packet by constructor and by attribute assignment, packs, re-parses, calls assert_consistency(); differing executions are judged by TLC (Trace_Values).", "5.2"),
  "C03": pk("The same declaration is compiled under all 16 combinations of the four code-generation options; TLC enumerates U_C03 (runs of fixed-size fields with/without struct code, mixed byte order/signedness, variable fields, bit groups, a descriptor on a vectorised field) x all inputs; each behaviour is executed under all 16 settings, which must agree with each other; a disagreeing pair is recorded and TLC evaluates C03_SameU/C03_SameP on it; the value universes are packed under all 16 settings too.", "5.3"),
